@@ -214,3 +214,29 @@ def model_value(m, t):
         a = v.approx(20)
         return Fraction(a.numerator_as_long(), a.denominator_as_long())
     return None
+
+
+def numeric_witness(expr, tries=40, seed=0, integer_prefixes=("B_", "stride", "initial", "n", "N_")):
+    """Fallback when the solver answers `unknown` on `expr != 0`: evaluate the sympy expression
+    at a few positive points with exact rationals.  A point where it is non-zero is a definite
+    counterexample (it is replayed like a solver model); finding none proves nothing."""
+    import random
+    from fractions import Fraction as F
+    e = to_sympy(expr)
+    syms = sorted(e.free_symbols, key=lambda s: s.name)
+    rng = random.Random(seed)
+    for _ in range(tries):
+        pt = {}
+        for s in syms:
+            if s.name.startswith(integer_prefixes) and not s.name.startswith("n_"):
+                pt[s] = sympy.Integer(rng.choice([1, 2, 3, 4, 6, 8, 12]))
+            else:
+                pt[s] = sympy.Rational(rng.choice([1, 2, 3, 5, 7, 11]), rng.choice([1, 2, 3]))
+        try:
+            v = e.subs(pt)
+            v = sympy.nsimplify(v) if v.is_number else v
+        except Exception:  # noqa
+            continue
+        if v.is_number and v != 0 and v.is_finite:
+            return {s.name: (int(x) if x.is_Integer else float(x)) for s, x in pt.items()}, v
+    return None, None
